@@ -183,6 +183,7 @@ func (c *channel) sendMsg(req request) (err error) {
 	defer c.streamMut.RUnlock()
 
 	done := make(chan struct{})
+	cancelStream := c.cancelStream // read under the read lock
 
 	// This goroutine waits for either 'done' to be closed, or the request context to be cancelled.
 	// If the request context was cancelled, we have two possibilities:
@@ -200,7 +201,7 @@ func (c *channel) sendMsg(req request) (err error) {
 				// false alarm
 			default:
 				// trigger reconnect
-				c.cancelStream()
+				cancelStream()
 			}
 		}
 	}()
